@@ -338,7 +338,7 @@ def run_case(s):
     if rw.error:
         nsolved = len(rw.times)
         if nsolved < upto:
-            cls = "%s:%s" % (s.get("id", {}).get("skel"), _devfull(s) if not back else dk)
+            cls = "%s:%s" % (s.get("id", {}).get("skel"), _devfull(s)) if not back else dk
             w0 = (rw.warnings or [""])[0]
             # mechanism classes (narrow by cause, not by placement)
             wall = " ".join(rw.warnings)
